@@ -21,6 +21,11 @@ theorem no_window_leaks : windowLeaks = [] := by decide
 /-- RULE_CAPTURE_NUM accumulates the captured number (as `pushcap` does), not the raw matched text -/
 theorem number_capture_not_raw : captureNumRaw = false := by decide
 
+/-- every exit (return / goto tail) of every opcode case of `peg_rule` is reached with as many `up1` as `down1`
+    (path-sensitive count extracted from the current peg.c); the semantic counterpart for the model is
+    `Props.C12.depth_balanced` -/
+theorem depth_exits_balanced : depthUnbalanced = [] ∧ depthExits = List.replicate opcodes.length [0] := by decide
+
 /-- the depth budget of the model driver is the implementation's -/
 theorem recursion_guard : recursionGuard = 1024 := by decide
 
